@@ -369,6 +369,11 @@ impl TraceOracle for C15 {
             if !own_involved && before != after {
                 f.push(finding("applying updates with broadcasting disabled leaves the backlog untouched", "C15:nobroadcast-touched".into(), format!("op #{} `{}`", r.idx, r.op.text())));
             }
+            // a batch that says something about the instance itself (known finding F10): the refutation gossip
+            // consumes transmissions, a renewal enqueues Down(previous identity) — whatever the flag says
+            if own_involved && before != after {
+                f.push(finding("applying updates with broadcasting disabled leaves the backlog untouched", "C15:nobroadcast-touched:self".into(), format!("op #{} `{}`", r.idx, r.op.text())));
+            }
         }
         // the queued update for an address is the most recently accepted one
         if let Op::Apply(true, ms) = r.op {
